@@ -419,6 +419,11 @@ def do_check(prop, tier, seed, extra):
     batches = rc_["batches"](tier)
     if extra.get("only"):
         batches = [b for b in batches if re.search(extra["only"], b.get("name", ""))]
+        # a partial (debugging) run never replaces the evidence of the registered command
+        global OUT
+        if "VERIF_OUT" not in os.environ:
+            OUT = "/tmp/verif-partial"
+            log("partial run (--only): evidence and replays go to %s" % OUT)
     variants = sorted(set(b["variant"] for b in batches))
     backends = sorted(set(b["backend"] for b in batches))
     try:
